@@ -19,6 +19,9 @@ EXHAUSTIVE = {"quick": "every (n+, n-, N) with n+ + n- <= N <= 40", "thorough": 
 
 
 def cases(rng, tier):
+    # objects built from sequence files (two per block)
+    for c in gen.file_cases(rng, 12 if tier == "quick" else 100, ['region']):
+        yield c
     # the property's own queries AFTER other public calls on the same object (same answers as on a fresh one)
     for c in gen.after_calls_cases(rng, 16 if tier == "quick" else 120, ['region']):
         yield c
